@@ -35,6 +35,11 @@ pub fn begin() -> u64 {
 }
 
 /// Makes the calling thread record into generation `gen_`.
+/// The generation the calling thread records into.
+pub fn current_gen() -> u64 {
+  MYGEN.with(|m| *m.borrow())
+}
+
 pub fn join(gen_: u64) {
   MYGEN.with(|m| *m.borrow_mut() = gen_);
   DROPS.with(|d| d.borrow_mut().clear());
@@ -90,9 +95,17 @@ impl Tok {
 
 /// Broadcast channels clone the payload for every receiver: a clone is the
 /// receiver's copy (its drop is not a library drop); the stored original stays armed.
+/// Returned by a clone whose source changed while it was being cloned (the slot was reused under the reader).
+pub const TORN_ID: u32 = 2_000_000_000;
+
 impl Clone for Tok {
   fn clone(&self) -> Tok {
-    Tok { id: self.id, armed: false }
+    // a user type's Clone takes time: under the scheduler it is a yield point (read the id first,
+    // then yield, so that a slot handed back too early can be overwritten "during" the clone)
+    let id = unsafe { std::ptr::read_volatile(&self.id) };
+    fibre::verif::point("clone", 0);
+    let id2 = unsafe { std::ptr::read_volatile(&self.id) };
+    Tok { id: if id == id2 { id } else { TORN_ID }, armed: false }
   }
 }
 
